@@ -1,5 +1,5 @@
 (* Codec/Props_codec.v — property theorems of the codec area (statement + `exact lemma` only). *)
-From FlacCodec Require Import Parser_proofs Wf Spec Roundtrip_sub Roundtrip_hdr Roundtrip_frame Agree_frame Totality Progress Stream EncChoice Damage.
+From FlacCodec Require Import Parser_proofs Wf Spec Roundtrip_sub Roundtrip_hdr Roundtrip_frame Agree_frame Totality Progress Stream EncChoice Damage Prefix Interrupted.
 From FlacBase Require Import Crc.
 Open Scope N_scope.
 
@@ -75,6 +75,24 @@ Theorem C05_flipped_frame_rejected : forall si chk bytes h c rest i k h' c' rest
   (i < length bytes - length rest)%nat -> k < 8 ->
   dec_frame si chk (flip16 bytes i k) = Ok (h', c', rest') -> length rest' <> length rest.
 Proof. exact flipped_frame_not_same_length. Qed.
+
+(* C05(d): a frame the decoder accepts, cut anywhere before its last byte, is an error (end of input),
+   never a shorter frame *)
+Theorem C05_truncated_frame_is_error : forall si chk bytes h c rest m,
+  dec_frame si chk bytes = Ok (h, c, rest) -> (m < length bytes - length rest)%nat ->
+  dec_frame si chk (firstn m bytes) = Err EEof.
+Proof. exact truncated_frame_is_eof. Qed.
+
+(* C14: complete valid frames followed by a proper prefix of one more valid frame (an encode interrupted at
+   any byte) decode to exactly the PCM of the complete frames; then end-of-stream or an error, no panic *)
+Theorem C14_interrupted_stream : forall si fs allb g gb m fuel cur acc,
+  Forall (frame_ok si) fs -> frames_bytes fs = Some allb ->
+  frame_ok si g -> write_frame g = Some gb -> (m < length gb)%nat ->
+  (si_total si = 0 \/ cur + total_samples fs + h_bs (f_hdr g) <= si_total si) ->
+  (length allb + m < fuel)%nat ->
+  let '(out, e) := dec_frames fuel si cur (allb ++ firstn m gb) acc in
+  out = rev acc ++ map (fun f => interleave_frame (sem_frame f)) fs /\ is_end_panic e = false.
+Proof. exact interrupted_stream. Qed.
 
 (* non-vacuity: a concrete well-formed frame (16-bit mono, 4 samples, FIXED order 1, one Rice partition) *)
 Definition ex_hdr : header := {| h_variable := false; h_bs_code := 6; h_bs := 4; h_rate_code := 9; h_rate := 44100;
